@@ -5,3 +5,9 @@ import XzVerif.Props.C05
 #print axioms Props.C05.C05_block_header_needs_its_bytes
 #print axioms Props.C05.C05_decoder_consumes_everything
 #print axioms Props.C05.C05_dry_input_is_unexpected_eof
+#print axioms Props.C05.C05_lzma2_prefix_rejected
+#print axioms Props.C05.C05_lzma2_prefix_output
+#print axioms Props.C05.C05_lzma_prefix_rejected_unknown
+#print axioms Props.C05.C05_lzma_prefix_rejected_known
+#print axioms Props.C05.C05_xz_prefix_rejected
+#print axioms Props.C05.C05_xz_chain_cut_only_at_boundaries
